@@ -16,7 +16,9 @@
 //	Call g  a call of the package-local function or method g
 //
 // combined with Seq / Alt (if, switch, select) / Loop (for, range; zero or more
-// times).  len(X) and cap(X) are not events.  X is x.f for any x of the pooled type,
+// times) / IfC c (an if whose condition tests a never-reassigned parameter of the
+// function against nil, or is such a boolean parameter: all IfC on the same parameter
+// in one activation of the function take the same branch).  len(X) and cap(X) are not events.  X is x.f for any x of the pooled type,
 // or an alias: a local bound by v := x.f, v := x.f[lo:hi], v := &x.f, or a field of
 // another struct assigned from it (it.topY = enc.itTopY makes MBIterator.topY an alias
 // of VP8Encoder.itTopY everywhere in the package).
@@ -87,6 +89,10 @@ type skSeq struct{ a, b sk }
 type skAlt struct{ a, b sk }
 type skLoop struct{ a sk }
 type skCall struct{ g string }
+type skIfC struct {
+	c    string
+	a, b sk
+}
 
 func (skSkip) coq() string   { return "Skip" }
 func (skFill) coq() string   { return "Fill" }
@@ -95,6 +101,14 @@ func (s skSeq) coq() string  { return "(Seq " + s.a.coq() + " " + s.b.coq() + ")
 func (s skAlt) coq() string  { return "(Alt " + s.a.coq() + " " + s.b.coq() + ")" }
 func (s skLoop) coq() string { return "(Loop " + s.a.coq() + ")" }
 func (s skCall) coq() string { return `(Call "` + s.g + `")` }
+func (s skIfC) coq() string  { return `(IfC "` + s.c + `" ` + s.a.coq() + " " + s.b.coq() + ")" }
+
+func ifc(c string, a, b sk) sk {
+	if isSkip(a) && isSkip(b) {
+		return skSkip{}
+	}
+	return skIfC{c, a, b}
+}
 
 func isSkip(s sk) bool { _, ok := s.(skSkip); return ok }
 
@@ -507,6 +521,75 @@ func (fa *fnAbs) isFreshRHS(e ast.Expr) bool {
 	return false
 }
 
+// stableGuard recognises a condition whose value cannot change during one activation of
+// the function: p != nil, p == nil, b or !b where p / b is a PARAMETER of the function
+// that is never assigned and whose address is never taken in the body.  All if
+// statements of the function on the same parameter are then correlated (IfC).
+func (fa *fnAbs) stableGuard(cond ast.Expr) (name string, negated, ok bool) {
+	var id *ast.Ident
+	switch x := cond.(type) {
+	case *ast.BinaryExpr:
+		if (x.Op != token.NEQ && x.Op != token.EQL) || identName(x.Y) != "nil" {
+			return "", false, false
+		}
+		id, _ = x.X.(*ast.Ident)
+		negated = x.Op == token.EQL
+	case *ast.UnaryExpr:
+		if x.Op != token.NOT {
+			return "", false, false
+		}
+		id, _ = x.X.(*ast.Ident)
+		negated = true
+	case *ast.Ident:
+		id = x
+	}
+	if id == nil {
+		return "", false, false
+	}
+	info := fa.sf.sp.p.info
+	obj := info.Uses[id]
+	fd := fa.sf.sp.decls[fa.fn]
+	isParam := false
+	if fd.Type.Params != nil {
+		for _, fl := range fd.Type.Params.List {
+			for _, n := range fl.Names {
+				if info.Defs[n] == obj && obj != nil {
+					isParam = true
+				}
+			}
+		}
+	}
+	if !isParam {
+		return "", false, false
+	}
+	stable := true
+	ast.Inspect(fd.Body, func(n ast.Node) bool {
+		switch y := n.(type) {
+		case *ast.AssignStmt:
+			for _, l := range y.Lhs {
+				if lid, ok := l.(*ast.Ident); ok && info.Uses[lid] == obj {
+					stable = false
+				}
+			}
+		case *ast.IncDecStmt:
+			if lid, ok := y.X.(*ast.Ident); ok && info.Uses[lid] == obj {
+				stable = false
+			}
+		case *ast.UnaryExpr:
+			if y.Op == token.AND {
+				if lid, ok := y.X.(*ast.Ident); ok && info.Uses[lid] == obj {
+					stable = false
+				}
+			}
+		}
+		return true
+	})
+	if !stable {
+		return "", false, false
+	}
+	return id.Name, negated, true
+}
+
 // fillTargetOK: a Fill through a struct-field alias of ANOTHER type (it.topY) counts
 // only when the alias was bound to the field earlier in the same function; the field
 // itself and local aliases always count.
@@ -646,6 +729,13 @@ func (fa *fnAbs) stmt(s ast.Stmt) sk {
 		var els sk = skSkip{}
 		if x.Else != nil {
 			els = fa.stmt(x.Else)
+		}
+		if name, neg, ok := fa.stableGuard(x.Cond); ok && x.Init == nil {
+			th := fa.block(x.Body.List)
+			if neg {
+				return ifc(name, els, th)
+			}
+			return ifc(name, th, els)
 		}
 		return seq(fa.stmt(x.Init), fa.simple(x.Cond), alt(fa.block(x.Body.List), els))
 	case *ast.ForStmt:
@@ -997,6 +1087,23 @@ func genSkel() (string, string) {
 				st.alias, st.typ, field, sf.status, coqStrList(roots), strings.Join(envLines, ";\n       "))
 		}
 	}
+	// ---- instance discipline: through which expressions are the fields of a pooled type
+	// reached, and which values of the type are passed on, per function
+	for _, st := range skelTypes {
+		sp := pkgs[st.alias]
+		if sp == nil {
+			continue
+		}
+		var lines []string
+		for _, name := range sp.names {
+			bases := instanceBases(sp, st.typ, sp.decls[name])
+			for _, bs := range bases {
+				lines = append(lines, fmt.Sprintf(`("%s", "%s")`, name, bs))
+			}
+		}
+		fmt.Fprintf(&b, "(* %s.%s: (function, expression of that type whose fields are accessed / that is passed on or called on) *)\nDefinition inst_%s_%s : list (string * string) :=\n  [%s].\n\n",
+			st.alias, st.typ, st.alias, st.typ, strings.Join(lines, ";\n   "))
+	}
 	b.WriteString("Definition skel_table : list (string * skel_entry) :=\n  [")
 	for i, k := range keys {
 		if i > 0 {
@@ -1026,6 +1133,9 @@ func collectCalls(s sk, into map[string]bool) {
 		collectCalls(x.b, into)
 	case skLoop:
 		collectCalls(x.a, into)
+	case skIfC:
+		collectCalls(x.a, into)
+		collectCalls(x.b, into)
 	case skCall:
 		into[x.g] = true
 	}
@@ -1041,6 +1151,8 @@ func hasEvent(s sk, relevant map[string]bool) bool {
 		return hasEvent(x.a, relevant) || hasEvent(x.b, relevant)
 	case skLoop:
 		return hasEvent(x.a, relevant)
+	case skIfC:
+		return hasEvent(x.a, relevant) || hasEvent(x.b, relevant)
 	case skCall:
 		return relevant[x.g]
 	}
@@ -1056,10 +1168,128 @@ func prune(s sk, relevant map[string]bool) sk {
 		return alt(prune(x.a, relevant), prune(x.b, relevant))
 	case skLoop:
 		return loop(prune(x.a, relevant))
+	case skIfC:
+		return ifc(x.c, prune(x.a, relevant), prune(x.b, relevant))
 	case skCall:
 		if !relevant[x.g] {
 			return skSkip{}
 		}
 	}
 	return s
+}
+
+// instanceBases lists the distinct expressions of type T / *T that a function uses as
+// the base of a field access, as a method receiver, or as a call argument.  Variables
+// declared inside an if-block that ends in a return are prefixed with "ret:" (their
+// scope cannot coexist with the code after the if).  Composite literals and pool
+// acquisitions (type assertions) are not bases; an expression that is neither an
+// identifier nor a field path from one is reported as "other:<expr>".
+func instanceBases(sp *skelPkg, typ string, fd *ast.FuncDecl) []string {
+	info := sp.p.info
+	isT := func(e ast.Expr) bool {
+		tv, ok := info.Types[e]
+		if !ok || tv.Type == nil {
+			return false
+		}
+		t := tv.Type
+		if pt, ok := t.(*types.Pointer); ok {
+			t = pt.Elem()
+		}
+		n, ok := t.(*types.Named)
+		return ok && n.Obj().Name() == typ && n.Obj().Pkg() == sp.p.pkg
+	}
+	// variables declared in an if-body ending with return
+	retScoped := map[types.Object]bool{}
+	ast.Inspect(fd.Body, func(n ast.Node) bool {
+		if is, ok := n.(*ast.IfStmt); ok && is.Else == nil && endsWithReturn(is.Body) {
+			ast.Inspect(is.Body, func(m ast.Node) bool {
+				if as, ok := m.(*ast.AssignStmt); ok && as.Tok == token.DEFINE {
+					for _, l := range as.Lhs {
+						if id, ok := l.(*ast.Ident); ok {
+							if o := info.Defs[id]; o != nil {
+								retScoped[o] = true
+							}
+						}
+					}
+				}
+				return true
+			})
+		}
+		return true
+	})
+	seen := map[string]bool{}
+	var out []string
+	note := func(e ast.Expr) {
+		for {
+			if p, ok := e.(*ast.ParenExpr); ok {
+				e = p.X
+				continue
+			}
+			if u, ok := e.(*ast.UnaryExpr); ok && u.Op == token.AND {
+				e = u.X
+				continue
+			}
+			if st, ok := e.(*ast.StarExpr); ok {
+				e = st.X
+				continue
+			}
+			break
+		}
+		switch e.(type) {
+		case *ast.CompositeLit, *ast.TypeAssertExpr:
+			return
+		case *ast.CallExpr:
+			// result of a call (acquire function): fine when bound to a variable, which is then the base
+			return
+		}
+		s := types.ExprString(e)
+		ok := false
+		root := e
+		for {
+			if sel, isSel := root.(*ast.SelectorExpr); isSel {
+				root = sel.X
+				continue
+			}
+			break
+		}
+		if id, isId := root.(*ast.Ident); isId {
+			ok = true
+			if o := info.Uses[id]; o != nil && retScoped[o] {
+				s = "ret:" + s
+			}
+		}
+		if !ok {
+			s = "other:" + s
+		}
+		if !seen[s] {
+			seen[s] = true
+			out = append(out, s)
+		}
+	}
+	ast.Inspect(fd.Body, func(n ast.Node) bool {
+		switch x := n.(type) {
+		case *ast.SelectorExpr:
+			if isT(x.X) {
+				note(x.X)
+			}
+		case *ast.CallExpr:
+			for _, a := range x.Args {
+				if isT(a) {
+					note(a)
+				}
+			}
+		case *ast.IndexExpr:
+			if isT(x) {
+				// element of a slice of T (several instances)
+				s := "other:" + types.ExprString(x)
+				if !seen[s] {
+					seen[s] = true
+					out = append(out, s)
+				}
+			}
+		}
+		return true
+	})
+	sort.Strings(out)
+	return out
 }
